@@ -83,8 +83,11 @@ class FactorColumnOp(BaseOp):
 
         factor_values = self.factor_values
         factor_names = self.factor_names
-        if len(factor_values) == 0:
+        if not factor_values:
             factor_values = df[self.column_name].unique()
+            factor_names = [self.column_name + '.' +
+                            str(column_value) for column_value in factor_values]
+        elif not factor_names:
             factor_names = [self.column_name + '.' +
                             str(column_value) for column_value in factor_values]
 
